@@ -2,6 +2,11 @@ package main
 
 import (
 	"fmt"
+	"go/ast"
+	"os"
+	"os/exec"
+	"path/filepath"
+	"strconv"
 	"go/token"
 	"go/types"
 	"sort"
@@ -368,6 +373,89 @@ func runC16(c *Ctx) {
 	}
 	c16Loops(c, fns)
 	c16ErrorsPropagated(c, fns)
+	if c.Tier == "thorough" && c.P.Config == "linux/amd64" {
+		c16BCECrossRef(c, fns)
+	}
+}
+
+// c16BCECrossRef (thorough tier): the compiler's own bounds-check-elimination
+// pass lists every index/slice operation it could not prove in range. Each such
+// line inside the analysed scope must have been enumerated as a panic site by
+// this checker — a completeness cross-check of the site enumeration (the
+// compiler is a second, independent static analysis; nothing is executed).
+func c16BCECrossRef(c *Ctx, fns []*ssa.Function) {
+	const rule = "every bounds check the Go compiler could not eliminate inside the analysed parser functions corresponds to a panic site this checker enumerated and discharged (completeness of the enumeration)"
+	cmd := exec.Command("go", "build", "-gcflags=-d=ssa/check_bce/debug=1", "./lib", "./", "./internal/resolver")
+	cmd.Dir = c.P.Dir
+	cmd.Env = append(os.Environ(), "GOFLAGS=-mod=mod", "GOPROXY=off", "GOSUMDB=off", "GOTOOLCHAIN=local", "GOWORK=off", "GOOS=linux", "GOARCH=amd64", "CGO_ENABLED=0")
+	out, _ := cmd.CombinedOutput()
+	type span struct {
+		file       string
+		start, end int
+		fn         string
+	}
+	var spans []span
+	for _, fn := range fns {
+		syn := fn.Syntax()
+		if syn == nil {
+			continue
+		}
+		ps, pe := c.P.Fset.Position(syn.Pos()), c.P.Fset.Position(syn.End())
+		rel, _ := filepath.Rel(c.P.Dir, ps.Filename)
+		spans = append(spans, span{rel, ps.Line, pe.Line, shortFn(fn)})
+	}
+	enumerated := map[string]bool{}
+	for _, o := range c.Obs {
+		if strings.HasPrefix(o.Key, "panic-site:") {
+			for _, s := range o.Sites {
+				enumerated[s] = true
+			}
+		}
+	}
+	n, missing := 0, []string{}
+	seen := map[string]bool{}
+	for _, line := range strings.Split(string(out), "\n") {
+		if !strings.Contains(line, "Found IsInBounds") && !strings.Contains(line, "Found IsSliceInBounds") {
+			continue
+		}
+		parts := strings.SplitN(line, ":", 4)
+		if len(parts) < 3 {
+			continue
+		}
+		file := strings.TrimPrefix(parts[0], "./")
+		ln, _ := strconv.Atoi(parts[1])
+		col, _ := strconv.Atoi(parts[2])
+		site := fmt.Sprintf("%s:%d", file, ln)
+		if seen[site] {
+			continue
+		}
+		if inlinedLibraryCallAt(c, file, ln, col) {
+			continue // the check belongs to library code inlined at this call (outside the repository's own code)
+		}
+		for _, sp := range spans {
+			if sp.file == file && ln >= sp.start && ln <= sp.end {
+				seen[site] = true
+				n++
+				if !enumerated[site] {
+					missing = append(missing, site+" ("+sp.fn+")")
+				}
+				break
+			}
+		}
+	}
+	sort.Strings(missing)
+	if n == 0 {
+		c.Undecided("bce-crossref:scope", rule, "the compiler listed no bounds checks in scope (build failed or output format changed): "+firstLine(string(out)))
+		return
+	}
+	c.Check(len(missing) == 0, "bce-crossref:scope", rule, fmt.Sprintf("%d compiler-unproven bounds-check lines in scope, all enumerated", n), "compiler-unproven bounds checks not enumerated by the checker: "+strings.Join(missing, ", "), "lib", "flags.go", "internal/resolver")
+}
+
+func firstLine(s string) string {
+	if i := strings.Index(s, "\n"); i >= 0 {
+		return s[:i]
+	}
+	return s
 }
 
 // dischargeSite classifies instruction i; isSite=false when it cannot panic.
@@ -957,4 +1045,48 @@ func constructedNonNil(fn *ssa.Function, ld *ssa.UnOp) (string, bool) {
 		}
 	}
 	return "", false
+}
+
+// inlinedLibraryCallAt: position file:line:col lies inside a call expression
+// whose callee is declared outside the repository — the compiler reports bounds
+// checks of inlined callees at the call site.
+func inlinedLibraryCallAt(c *Ctx, file string, line, col int) bool {
+	for _, pk := range c.P.Pkgs {
+		for _, f := range pk.Syntax {
+			pos := c.P.Fset.Position(f.Pos())
+			rel, _ := filepath.Rel(c.P.Dir, pos.Filename)
+			if rel != file {
+				continue
+			}
+			found := false
+			ast.Inspect(f, func(n ast.Node) bool {
+				call, ok := n.(*ast.CallExpr)
+				if !ok {
+					return true
+				}
+				ps, pe := c.P.Fset.Position(call.Pos()), c.P.Fset.Position(call.End())
+				if ps.Line > line || pe.Line < line {
+					return true
+				}
+				if ps.Line == line && ps.Column > col || pe.Line == line && pe.Column < col {
+					return true
+				}
+				var obj types.Object
+				switch fun := call.Fun.(type) {
+				case *ast.SelectorExpr:
+					obj = pk.TypesInfo.Uses[fun.Sel]
+				case *ast.Ident:
+					obj = pk.TypesInfo.Uses[fun]
+				}
+				if obj != nil && obj.Pkg() != nil && !c.P.isRepoPkg(obj.Pkg().Path()) {
+					if _, isFunc := obj.(*types.Func); isFunc {
+						found = true
+					}
+				}
+				return true
+			})
+			return found
+		}
+	}
+	return false
 }
